@@ -610,5 +610,5 @@ def OPS_SELF(op):
 def make_scratch():
     import tempfile
 
-    base = os.environ.get("VERIF_SCRATCH") or tempfile.gettempdir()
+    base = os.environ.get("VERIF_SCRATCH") or ("/dev/shm" if os.access("/dev/shm", os.W_OK) else tempfile.gettempdir())
     return tempfile.mkdtemp(prefix="vf_", dir=base)
